@@ -80,6 +80,10 @@ type RuntimeContext struct {
 	Prefix     []byte
 	IndentStr  []byte
 	Option     *Option
+
+	// addresses of the interface values being encoded: kept apart from SeenPtr because an
+	// interface that is the first field of a struct has the address of that struct
+	SeenIfacePtr []uintptr
 }
 
 func (c *RuntimeContext) Init(p uintptr, codelen int) {
@@ -89,6 +93,7 @@ func (c *RuntimeContext) Init(p uintptr, codelen int) {
 	c.Ptrs[0] = p
 	c.KeepRefs = c.KeepRefs[:0]
 	c.SeenPtr = c.SeenPtr[:0]
+	c.SeenIfacePtr = c.SeenIfacePtr[:0]
 	c.BaseIndent = 0
 	verifInit(c)
 }
